@@ -495,7 +495,7 @@ fn snap12(s: &mut Session) -> String {
         .collect();
     v.sort();
     let ps = if v.is_empty() { "-".to_string() } else { v.into_iter().map(|x| x.1).collect::<Vec<_>>().join(",") };
-    format!("{}|{}", st, ps)
+    format!("{}|{}|{}", st, ps, if s.verif_files_extracted() { 'x' } else { '-' })
 }
 
 /// Apply one op; returns the reply token (`Rq<i>`, `Ri<i>`, `In`, `Ni`, `Pk`, `Ig`, `-`, `E`).
